@@ -141,6 +141,7 @@ type Exec struct {
 	curProps   []string
 	loadSeen   map[string]bool
 	sliceParent map[*Term]sliceParentInfo // []float64 slice expression -> (sliced value, low index)
+	derefText   string
 	equivRules  map[*Term][]equivRule
 	inEquivInst bool
 	pureFV     map[*Term]bool // function values known (by a resultpure contract) to be side-effect free
